@@ -17,6 +17,7 @@ use super::sctp_common::*;
 use crate::engine::{AsyncCheck, CaseRec, Check, Ctx, Fail};
 use crate::net::fault::{Action, Ev, Phase, Rule, Side};
 use crate::net::rig::{SctpInfo, trace_data_len};
+use crate::net::sacksynth::SackForm;
 use crate::net::wire::{self, SClass};
 use parking_lot::Mutex;
 use proptest::prelude::*;
@@ -61,6 +62,11 @@ pub struct TraceStats {
     pub tsn_wrapped: bool,
     pub several_init_acks: bool,
     pub fwd_tsn: u64,
+    pub max_gap_blocks: usize,
+    pub sacks_over_16_blocks: u64,
+    pub adjacent_blocks: bool,
+    pub repeated_block: bool,
+    pub tolerated_wrap_retx: u64,
     pub tolerated_overruns: u64,
     pub tolerated_empty: u64,
     pub truncated_by_path_loss: bool,
@@ -83,6 +89,11 @@ impl Default for TraceStats {
             tsn_wrapped: false,
             several_init_acks: false,
             fwd_tsn: 0,
+            max_gap_blocks: 0,
+            sacks_over_16_blocks: 0,
+            adjacent_blocks: false,
+            repeated_block: false,
+            tolerated_wrap_retx: 0,
             tolerated_overruns: 0,
             tolerated_empty: 0,
             truncated_by_path_loss: false,
@@ -92,6 +103,8 @@ impl Default for TraceStats {
 }
 
 struct Chunk {
+    /// a copy of it has been handed to the peer by the harness
+    delivered: bool,
     bytes: u32,
     /// capture time of its latest (re)transmission
     last_tx_us: u64,
@@ -182,6 +195,7 @@ fn ctype_name(t: u8) -> String {
 }
 
 pub const SIG_EMPTY: &str = "packet-without-chunks";
+pub const SIG_WRAP_SACK: &str = "retransmit-after-ack:pre-wrap-tsn-while-post-wrap-tsns-outstanding";
 pub const SIG_FORGOTTEN: &str = "window-overrun:unacked-chunks-forgotten-after-timeout-retransmission";
 
 pub struct OracleInput<'a> {
@@ -192,6 +206,8 @@ pub struct OracleInput<'a> {
     pub reliable_streams: &'a HashSet<u16>,
     pub end_us: u64,
     pub last_fault_us: u64,
+    /// the SACKs delivered in this run were built by the harness (net::sacksynth)
+    pub synthetic_sacks: bool,
     /// configured RTO.min of the senders
     pub rto_min_us: u64,
     /// per side (A, B): the harness' own datagram path lost packets of that sender (its byte counter
@@ -246,17 +262,26 @@ impl<'a> Oracle<'a> {
     }
 
     /// SACK from `s.other()` handed to `s`
-    fn sack_delivered(&mut self, s: Side, sack: &wire::SackChunk, t: u64) {
+    fn sack_delivered(&mut self, s: Side, sack: &wire::SackChunk, t: u64) -> Result<(), Fail> {
         self.st.sacks_delivered += 1;
-        let Some((tsn0, _)) = self.base(s) else { return };
+        self.st.max_gap_blocks = self.st.max_gap_blocks.max(sack.gaps.len());
+        if sack.gaps.len() > 16 {
+            self.st.sacks_over_16_blocks += 1;
+        }
+        if sack.gaps.windows(2).any(|w| w[1].0 == w[0].1 + 1) {
+            self.st.adjacent_blocks = true;
+        }
+        if sack.gaps.iter().enumerate().any(|(k, g)| sack.gaps[..k].contains(g)) {
+            self.st.repeated_block = true;
+        }
+        let Some((tsn0, _)) = self.base(s) else { return Ok(()) };
         let n = self.dirs[idx(s)].chunks.len();
         let d = sack.cum_tsn.wrapping_sub(tsn0).wrapping_add(1) as i32;
+        let mut covered: Vec<usize> = Vec::new();
         if d > 0 {
             let upto = (d as usize).min(n);
             let from = self.dirs[idx(s)].cum_idx;
-            for k in from..upto {
-                self.cover(s, k, t);
-            }
+            covered.extend(from..upto);
             if upto > from {
                 self.dirs[idx(s)].cum_idx = upto;
             }
@@ -266,13 +291,27 @@ impl<'a> Oracle<'a> {
             let hi = d as i64 - 1 + *b as i64;
             let mut k = lo.max(0);
             while k <= hi && (k as usize) < n {
-                self.cover(s, k as usize, t);
+                covered.push(k as usize);
                 k += 1;
             }
+        }
+        for k in covered {
+            if self.inp.synthetic_sacks {
+                // guard of the harness' own SACK builder: it may only report what it delivered
+                let c = &self.dirs[idx(s)].chunks[k];
+                if !c.delivered && c.skipped_us.is_none() {
+                    return Err(Fail::new(
+                        "harness-sack-not-truthful",
+                        format!("harness-built SACK delivered to {:?} at {} us covers TSN {} which was never delivered to (or skipped at) the peer", s, t, tsn0.wrapping_add(k as u32)),
+                    ));
+                }
+            }
+            self.cover(s, k, t);
         }
         let dir = &mut self.dirs[idx(s)];
         dir.recent.push_back((t, sack.a_rwnd));
         dir.newest_rwnd = Some(sack.a_rwnd);
+        Ok(())
     }
 
     /// most permissive a_rwnd the sender `s` may legitimately be acting on at time `t`
@@ -313,7 +352,14 @@ impl<'a> Oracle<'a> {
                     // delivered to s.other(): SACKs update that sender's view, FORWARD-TSN skips at the receiver
                     for c in &pkt.chunks {
                         if let Some(sack) = c.as_sack() {
-                            self.sack_delivered(s.other(), &sack, e.t_us);
+                            self.sack_delivered(s.other(), &sack, e.t_us)?;
+                        } else if let Some(dc) = c.as_data() {
+                            if let Some((tsn0, _)) = self.dirs[i].base {
+                                let k = dc.tsn.wrapping_sub(tsn0) as usize;
+                                if let Some(ch) = self.dirs[i].chunks.get_mut(k) {
+                                    ch.delivered = true;
+                                }
+                            }
                         } else if c.ctype == wire::CT_FORWARD_TSN && c.value.len() >= 4 {
                             if let Some((tsn0, _)) = self.base(s) {
                                 let new_cum = u32::from_be_bytes([c.value[0], c.value[1], c.value[2], c.value[3]]);
@@ -525,15 +571,39 @@ impl<'a> Oracle<'a> {
                             if let Some(tc) = ch.covered_us {
                                 let late = e.t_us.saturating_sub(tc);
                                 self.st.retx_after_cover_us.push(late);
+                                if late > std::env::var("C13_DEBUG_LATE_US").ok().and_then(|v| v.parse().ok()).unwrap_or(100_000u64) && self.st.notes.len() < 1 && std::env::var("C13_DEBUG").is_ok() {
+                                    self.st.notes.push(format!("retx of tsn {} at {}us, {}ms after cover at {}us; before: {}", dc.tsn, e.t_us, late / 1000, tc, tail(trace, ei, 14)));
+                                }
                                 // (f)
                                 if late > LATE_RETX_US && !clause_disabled('f') {
-                                    return Err(Fail::timing(
-                                        "retransmit-after-ack",
+                                    // pre-wrap TSN retransmitted while TSNs beyond the 2^32 wrap are outstanding?
+                                    let wrap_idx = (1u64 << 32) - tsn0 as u64;
+                                    let post_wrap_outstanding = (off as u64) < wrap_idx
+                                        && self.dirs[i].chunks.iter().enumerate().any(|(k, c)| k as u64 >= wrap_idx && c.covered_us.is_none() && !c.abandoned);
+                                    let sig = if post_wrap_outstanding { SIG_WRAP_SACK } else { "retransmit-after-ack" };
+                                    let f = Fail::timing(
+                                        sig,
                                         format!(
-                                            "{:?} retransmitted TSN {} at {} us, {} ms after a SACK covering it was delivered to it (at {} us)",
-                                            s, dc.tsn, e.t_us, late / 1000, tc
+                                            "{:?} retransmitted TSN {} at {} us, {} ms after a SACK covering it was delivered to it (at {} us){}; events before: {}",
+                                            s,
+                                            dc.tsn,
+                                            e.t_us,
+                                            late / 1000,
+                                            tc,
+                                            if post_wrap_outstanding { " - the TSN lies before the 2^32 wrap while TSNs after the wrap are outstanding" } else { "" },
+                                            tail(trace, ei, 12)
                                         ),
-                                    ));
+                                    );
+                                    if self.inp.tolerated.iter().any(|k| k == sig) {
+                                        self.st.tolerated_wrap_retx += 1;
+                                        if self.deferred.is_none() {
+                                            let mut f = f;
+                                            f.timing = false;
+                                            self.deferred = Some(f);
+                                        }
+                                    } else {
+                                        return Err(f);
+                                    }
                                 }
                             }
                             continue;
@@ -568,14 +638,10 @@ impl<'a> Oracle<'a> {
                         if counted {
                             dir.outstanding = after;
                         }
-                        dir.chunks.push(Chunk { bytes, last_tx_us: e.t_us, counted, covered_us: None, abandoned: false, skipped_us: None });
+                        dir.chunks.push(Chunk { delivered: false, bytes, last_tx_us: e.t_us, counted, covered_us: None, abandoned: false, skipped_us: None });
                         let excess = after - perm as i64;
                         self.st.excess.push(excess);
                         self.st.excess_newest.push(after - newest as i64);
-                        if after - newest as i64 > MAX_PACKET as i64 && self.st.notes.len() < 4 {
-                            let recent: Vec<String> = self.dirs[i].recent.iter().rev().take(8).map(|(t, w)| format!("{}us:{}", t, w)).collect();
-                            self.st.notes.push(format!("new tsn {} at {}us out_after={} newest_rwnd={} perm={} recent(newest first)={:?}", dc.tsn, e.t_us, after, newest, perm, recent));
-                        }
                         if excess > MAX_PACKET as i64 {
                             let recent: Vec<String> = self.dirs[i].recent.iter().rev().take(6).map(|(t, w)| format!("{}us:{}", t, w)).collect();
                             let init_rwnd = self.dirs[i].base.map(|b| b.1).unwrap_or(0);
@@ -756,6 +822,9 @@ pub struct Case {
     pub n: NetSpec,
     /// keep observing 2.6 s after completion (quiescence clause)
     pub quiesce: bool,
+    /// Some = every SACK is replaced by a harness-built truthful one in this form (peer-independent SACKs)
+    #[serde(default)]
+    pub sack: Option<SackForm>,
 }
 
 const RWNDS: [u32; 4] = [4 * 1024, 8 * 1024, 16 * 1024, 64 * 1024];
@@ -842,8 +911,36 @@ fn zero_window_case() -> impl Strategy<Value = Case> {
             )
                 .prop_map(Some),
         ],
+        prop_oneof![
+            3 => Just(None),
+            1 => (1..30u16, 6..26u16, prop::bool::weighted(0.6)).prop_map(Some),
+        ],
     )
-        .prop_map(|((rwnd, max_burst, max_cwnd, rto_ms), sender, sizes, ordered, (hole, hact), follow, mut sacks, reverse, (tsn_a, tsn_b), blackout)| {
+        .prop_map(|((rwnd, max_burst, max_cwnd, rto_ms), sender, sizes, ordered, (hole, hact), mut follow, mut sacks, reverse, (mut tsn_a, mut tsn_b), blackout, data_blackout)| {
+            // DATA blackout: a run of consecutive DATA packets (first transmissions and whatever is
+            // retransmitted meanwhile) lost; optionally placed so that it starts at the 2^32 TSN wrap
+            let mut rto_ms = rto_ms;
+            // a long run of dropped SACKs is consumed one SACK per (backed-off) RTO: keep RTO.max small there
+            if matches!(blackout, Some((_, len, 0)) if len > 8) && rto_ms.2 > 400 {
+                rto_ms = if rto_ms.0 == 200 { RTOS[0] } else { RTOS[1] };
+            }
+            if let Some((start, len, at_wrap)) = data_blackout {
+                // every lost retransmission costs a (doubling) RTO: keep such runs short
+                if rto_ms.2 > 400 {
+                    rto_ms = if rto_ms.0 == 200 { RTOS[0] } else { RTOS[1] };
+                }
+                for k in 0..len {
+                    follow.push((start + k, Action::Drop));
+                }
+                if at_wrap {
+                    let t = Some(0u32.wrapping_sub((hole + start) as u32));
+                    if sender == Side::A {
+                        tsn_a = t;
+                    } else {
+                        tsn_b = t;
+                    }
+                }
+            }
             if let Some((start, len, delay)) = blackout {
                 for k in 0..len {
                     let a = if delay == 0 { Action::Drop } else { Action::Delay { ms: delay } };
@@ -906,6 +1003,92 @@ fn zero_window_case() -> impl Strategy<Value = Case> {
                     rto_ms,
                 },
                 quiesce: true,
+                sack: None,
+            }
+        })
+}
+
+fn sack_form() -> impl Strategy<Value = SackForm> {
+    (
+        prop_oneof![3 => Just(0u8), 1 => Just(1u8), 1 => Just(2u8), 1 => Just(3u8)],
+        prop::bool::weighted(0.3),
+        prop::bool::weighted(0.3),
+    )
+        .prop_map(|(split, repeat, extra_dups)| SackForm { split, repeat, extra_dups })
+}
+
+/// None = the peer endpoint's own SACKs reach the sender; Some = harness-built peer-independent SACKs
+fn sack_opt() -> impl Strategy<Value = Option<SackForm>> {
+    prop_oneof![2 => Just(None), 1 => sack_form().prop_map(Some)]
+}
+
+/// Many holes in one flight: a burst of 40-150 one-chunk-per-packet messages over 2-4 channels
+/// (reliable and PR-SCTP, so stream ordering does not serialise them) after an optional loss-free
+/// warm-up that opens the congestion window, with every 2nd / 3rd DATA packet of a long ordinal
+/// range dropped or delayed (the range also hits the retransmissions, so holes persist); every SACK is
+/// replaced by a harness-built truthful one that reports ALL gap blocks (rustrtc's own receiver never
+/// reports more than 16).
+fn many_holes_case() -> impl Strategy<Value = Case> {
+    let rel = prop_oneof![
+        5 => Just(Rel::Reliable),
+        1 => Just(Rel::Rexmit(0)),
+        1 => Just(Rel::Rexmit(1)),
+        1 => Just(Rel::Rexmit(3)),
+        1 => (50..300u16).prop_map(Rel::Timed),
+    ];
+    (
+        side_strategy(),
+        prop::collection::vec((any::<bool>(), rel), 2..=4),
+        (prop_oneof![1 => Just(0usize), 3 => 20..120usize], 40..150usize),
+        (prop_oneof![Just(2u16), Just(3u16)], 0..3u16, 40..220u16),
+        prop_oneof![4 => Just(0u16), 1 => 150..600u16],
+        (596..1100u32, any::<bool>()),
+        (prop_oneof![Just(0u8), Just(8u8)], prop_oneof![Just(65536u32), Just(262144u32)], 0..RTOS.len()),
+        prop_oneof![
+            // the flight straddles the 2^32 wrap
+            2 => (3..140u32).prop_map(|k| Some(0u32.wrapping_sub(k))),
+            1 => tsn_strategy(),
+        ],
+        tsn_strategy(),
+        sack_form(),
+    )
+        .prop_map(|(sender, chans, (warm, burst), (period, phase, span), delay, (size, vary), (max_burst, max_cwnd, rto), tsn_s, tsn_o, form)| {
+            let chans: Vec<ChanSpec> = chans.into_iter().enumerate().map(|(i, (ordered, rel))| chan(100 + i as u16, ordered, rel, None)).collect();
+            let nch = chans.len();
+            let sends: Vec<SendOp> = (0..warm + burst)
+                .map(|i| SendOp {
+                    side: sender,
+                    chan: i % nch,
+                    task: (i % nch) as u8,
+                    size: if vary { size + (i as u32 * 37) % 70 } else { size },
+                    gap_ms: 0,
+                })
+                .collect();
+            let mut rules = Vec::new();
+            for i in 0..span {
+                if i % period == phase % period {
+                    rules.push(Rule {
+                        from: sender,
+                        class: SClass::Data,
+                        ordinal: warm as u16 + i,
+                        action: if delay == 0 { Action::Drop } else { Action::Delay { ms: delay } },
+                    });
+                }
+            }
+            let (tsn_a, tsn_b) = if sender == Side::A { (tsn_s, tsn_o) } else { (tsn_o, tsn_s) };
+            Case {
+                w: Workload { chans, sends },
+                n: NetSpec {
+                    rules,
+                    tsn_a,
+                    tsn_b,
+                    rwnd: 128 * 1024,
+                    max_burst,
+                    max_cwnd,
+                    rto_ms: RTOS[rto],
+                },
+                quiesce: true,
+                sack: Some(form),
             }
         })
 }
@@ -957,7 +1140,7 @@ fn reliable_case(max_msgs: usize) -> impl Strategy<Value = Case> {
             });
         prop::collection::vec(op, 1..=max_msgs).prop_map(move |sends| Workload { chans: chans.clone(), sends })
     });
-    (w, net_strategy(10, 6), prop::bool::weighted(0.5)).prop_map(|(w, n, quiesce)| Case { w, n, quiesce })
+    (w, net_strategy(10, 6), prop::bool::weighted(0.5), sack_opt()).prop_map(|(w, n, quiesce, sack)| Case { w, n, quiesce, sack })
 }
 
 /// C12-style: reliable and partially reliable, ordered and unordered, negotiated and in-band channels,
@@ -1004,7 +1187,7 @@ fn mixed_case(max_ch: usize, max_msgs: usize) -> impl Strategy<Value = Case> {
             .prop_map(|(side, chan, task, size, gap_ms)| SendOp { side, chan, task, size, gap_ms });
         prop::collection::vec(op, 1..=max_msgs).prop_map(move |sends| Workload { chans: chans.clone(), sends })
     });
-    (w, net_strategy(12, 7), prop::bool::weighted(0.5)).prop_map(|(w, n, quiesce)| Case { w, n, quiesce })
+    (w, net_strategy(12, 7), prop::bool::weighted(0.5), sack_opt()).prop_map(|(w, n, quiesce, sack)| Case { w, n, quiesce, sack })
 }
 
 // ------------------------------------------------------------------ judging
@@ -1022,6 +1205,9 @@ pub struct Agg {
     pub max_excess_newest: i64,
     pub retx_after_cover_ms: BTreeMap<String, u64>,
     pub quiet: BTreeMap<String, u64>,
+    pub sacks_over_16_blocks: u64,
+    pub runs_with_over_16_blocks: u64,
+    pub max_gap_blocks: usize,
 }
 
 fn bucket(x: i64) -> &'static str {
@@ -1068,6 +1254,11 @@ impl Agg {
             *self.retx_after_cover_ms.entry(ms_bucket(*x).to_string()).or_default() += 1;
         }
         *self.quiet.entry(format!("{:?}", st.quiet)).or_default() += 1;
+        self.sacks_over_16_blocks += st.sacks_over_16_blocks;
+        if st.sacks_over_16_blocks > 0 {
+            self.runs_with_over_16_blocks += 1;
+        }
+        self.max_gap_blocks = self.max_gap_blocks.max(st.max_gap_blocks);
     }
 }
 
@@ -1095,13 +1286,14 @@ pub fn judge(c: &Case, r: &RunResult, rec: &CaseRec, agg: &Mutex<Agg>, tolerated
         reliable_streams: &reliable,
         end_us: r.end_us,
         last_fault_us: r.last_fault_us,
+        synthetic_sacks: c.sack.is_some(),
         rto_min_us: c.n.rto_ms.1 as u64 * 1000,
         path_loss,
     };
     let (st, res) = check_trace(&inp);
     agg.lock().add(&st);
     if std::env::var("C13_DEBUG").is_ok() && !st.notes.is_empty() {
-        eprintln!("C13_DEBUG rules={:?}\n   {}", c.n.rules, st.notes.join("\n   "));
+        eprintln!("C13_DEBUG {}", st.notes.join("\n   "));
     }
 
     let low_window = st.min_a_rwnd.map(|m| m < 2400).unwrap_or(false);
@@ -1127,9 +1319,43 @@ pub fn judge(c: &Case, r: &RunResult, rec: &CaseRec, agg: &Mutex<Agg>, tolerated
     if st.fwd_tsn > 0 {
         rec.label("forward-tsn-on-wire");
     }
+    if let Some(f) = &c.sack {
+        rec.label("sacks-built-by-harness");
+        if f.split > 0 && st.adjacent_blocks {
+            rec.label("sack-with-adjacent-blocks-presented");
+        }
+        if st.repeated_block {
+            rec.label("sack-with-repeated-block-presented");
+        }
+        if f.extra_dups {
+            rec.label("sack-form:extra-duplicate-tsns");
+        }
+    }
+    if st.sacks_over_16_blocks > 0 {
+        rec.label("sack-with->16-gap-blocks-presented");
+    }
+    rec.label(match st.max_gap_blocks {
+        0 => "max-gap-blocks:0",
+        1..=4 => "max-gap-blocks:1-4",
+        5..=16 => "max-gap-blocks:5-16",
+        17..=32 => "max-gap-blocks:17-32",
+        33..=64 => "max-gap-blocks:33-64",
+        _ => "max-gap-blocks:>64",
+    });
+    if let Some(sy) = &r.sack_synth {
+        rec.label(match sy.max_holes {
+            0..=16 => "max-simultaneous-holes:<=16",
+            17..=32 => "max-simultaneous-holes:17-32",
+            33..=60 => "max-simultaneous-holes:33-60",
+            _ => "max-simultaneous-holes:>60",
+        });
+    }
     if st.truncated_by_path_loss {
         rec.label("walk-stopped-at-harness-path-loss");
         rec.inconclusive_timing();
+    }
+    if st.tolerated_wrap_retx > 0 {
+        rec.label("known-retransmit-after-ack-at-tsn-wrap(walk continued)");
     }
     if st.tolerated_empty > 0 {
         rec.label("known-packet-without-chunks(walk continued)");
@@ -1155,6 +1381,20 @@ pub fn judge(c: &Case, r: &RunResult, rec: &CaseRec, agg: &Mutex<Agg>, tolerated
     if r.close_reason.iter().any(|x| x.is_some()) {
         rec.label("association-closed");
     }
+    if (!r.complete || !r.senders_done) && std::env::var("C13_DEBUG").is_ok() {
+        eprintln!(
+            "C13_DEBUG incomplete run: senders_done={} complete={} issued={} returned={} end={}us last_fault={}us | A: {} | B: {} | {}",
+            r.senders_done,
+            r.complete,
+            r.issued.len(),
+            r.submits.len(),
+            r.end_us,
+            r.last_fault_us,
+            r.diag[0],
+            r.diag[1],
+            describe_trace_tail(&r.trace, 12)
+        );
+    }
     if !r.complete || !r.senders_done {
         rec.label("run-incomplete(liveness is C01's clause)");
     }
@@ -1167,11 +1407,13 @@ pub fn judge(c: &Case, r: &RunResult, rec: &CaseRec, agg: &Mutex<Agg>, tolerated
     })
 }
 
+/// Liveness is not a C13 clause (C01 owns it): the quick tier stops waiting for a stalled run early
+/// (6 s after the last fault / submit); such runs are labelled and judged on what was observed.
 fn limits(thorough: bool, quiesce: bool) -> Limits {
     Limits {
-        complete_within: Duration::from_secs(if thorough { 30 } else { 12 }),
+        complete_within: Duration::from_secs(if thorough { 30 } else { 6 }),
         settle: if quiesce { Duration::from_millis(2600) } else { Duration::from_millis(150) },
-        hard_cap: Duration::from_secs(if thorough { 90 } else { 40 }),
+        hard_cap: Duration::from_secs(if thorough { 90 } else { 20 }),
     }
 }
 
@@ -1181,7 +1423,7 @@ fn checker(thorough: bool, agg: Arc<Mutex<Agg>>, tolerated: Arc<Vec<String>>) ->
         let tolerated = tolerated.clone();
         Box::pin(async move {
             let rec = CaseRec::default();
-            let res = match run_case(&c.w, &c.n, &limits(thorough, c.quiesce)).await {
+            let res = match run_case_with(&c.w, &c.n, &limits(thorough, c.quiesce), &RigExtra { sack_form: c.sack }).await {
                 Ok(r) => judge(&c, &r, &rec, &agg, &tolerated),
                 Err(e) => Err(Fail::new("harness-error", format!("rig failed: {e}"))),
             };
@@ -1203,14 +1445,18 @@ pub fn run(ctx: &mut Ctx) {
     let rt = tokio::runtime::Builder::new_multi_thread().worker_threads(16).enable_all().build().unwrap();
     let agg = Arc::new(Mutex::new(Agg::default()));
     let th = ctx.thorough();
-    let tolerated: Arc<Vec<String>> = Arc::new([SIG_FORGOTTEN, SIG_EMPTY].iter().filter(|k| ctx.is_known(k)).map(|k| k.to_string()).collect());
+    let tolerated: Arc<Vec<String>> = Arc::new([SIG_FORGOTTEN, SIG_EMPTY, SIG_WRAP_SACK].iter().filter(|k| ctx.is_known(k)).map(|k| k.to_string()).collect());
 
     // developer aid: C13_ONLY=<sub-check name> runs a single sub-check
     let only = std::env::var("C13_ONLY").ok();
     let want = |name: &str| only.as_deref().map(|o| o == name).unwrap_or(true);
     let n = ctx.scale(240usize, 3000usize);
     if want("zero-window") {
-        ctx.sub_async(&rt, "zero-window", n, ctx.scale(80, 64), zero_window_case(), checker(th, agg.clone(), tolerated.clone()));
+        ctx.sub_async(&rt, "zero-window", n, ctx.scale(120, 64), (zero_window_case(), sack_opt()).prop_map(|(mut c, s)| { c.sack = s; c }), checker(th, agg.clone(), tolerated.clone()));
+    }
+    let n = ctx.scale(96usize, 2400usize);
+    if want("many-holes") {
+        ctx.sub_async(&rt, "many-holes", n, ctx.scale(96, 64), many_holes_case(), checker(th, agg.clone(), tolerated.clone()));
     }
     let n = ctx.scale(160usize, 3000usize);
     if want("reliable-faulted") {
@@ -1236,6 +1482,9 @@ pub fn run(ctx: &mut Ctx) {
             "max_window_excess_vs_newest_sack": a.max_excess_newest,
             "retransmission_delay_after_covering_sack": a.retx_after_cover_ms,
             "quiescence_windows": a.quiet,
+            "delivered_sacks_with_more_than_16_gap_blocks": a.sacks_over_16_blocks,
+            "runs_with_more_than_16_gap_blocks_presented": a.runs_with_over_16_blocks,
+            "max_gap_blocks_in_a_delivered_sack": a.max_gap_blocks,
         }),
     );
     if std::env::var("C13_STATS").is_ok() {
